@@ -18,7 +18,7 @@ func init() {
 			"NOT decided: that all other data is unchanged, physical deletion after restart, value-level equality of listings.",
 		Assumptions: commonAssumptions,
 		Technique:   "static analysis: sibling coverage of a filter obligation over all producers (call index), wrong-error-variable pattern on go/cfg, accessor table with field-read obligations",
-		Rules:       "C13.R1 R2 R3 R4 R5 R6",
+		Rules:       "C13.R1 R2 R3 R4 R5 R6 R7 R8",
 	}
 }
 
@@ -604,4 +604,79 @@ func readsMarkDeleted(c *an.Ctx, f *an.Fn, depth int, seen map[*types.Func]bool)
 		return true
 	})
 	return found
+}
+
+func init() {
+	old := All["C13"].Run
+	All["C13"].Run = func(c *an.Ctx) {
+		old(c)
+		c13round2(c)
+	}
+}
+
+func c13round2(c *an.Ctx) {
+	const T = "engine/index/tsi"
+	// R7: tag-value listing.  The scan jumps over the remaining index rows of a tag value;
+	// that is right only once the value has been emitted (a live series was seen for it).
+	r := c.Rule("C13.R7", "K-ORDER", T+":(*indexSearch).searchTagValuesBySingleKey jumps to the next tag value only after the current one was emitted")
+	if f := fn(r, T+":indexSearch.searchTagValuesBySingleKey"); f != nil {
+		emit := f.Find(an.MNode("tagValueMap[value] = {}", func(g *an.Fn, n ast.Node) bool {
+			as, ok := n.(*ast.AssignStmt)
+			if !ok || len(as.Lhs) != 1 {
+				return false
+			}
+			ix, ok := as.Lhs[0].(*ast.IndexExpr)
+			if !ok {
+				return false
+			}
+			_, isMap := g.Info.TypeOf(ix.X).Underlying().(*types.Map)
+			return isMap
+		}))
+		seek := f.Find(an.MNode("ts.Seek(next value) inside the loop", func(g *an.Fn, n ast.Node) bool {
+			ce, ok := n.(*ast.CallExpr)
+			if !ok {
+				return false
+			}
+			sel, ok := ce.Fun.(*ast.SelectorExpr)
+			if !ok || sel.Sel.Name != "Seek" {
+				return false
+			}
+			return loopOf(g, ce) != nil
+		}))
+		r.AddSites(emit.Len() + seek.Len())
+		if emit.Len() == 0 || seek.Len() == 0 {
+			r.Fail(f.Name+": shape", c.P.Pos(f.Body.Pos()), "expected the emission of the tag value and the in-loop seek to the next value (found %d / %d)", emit.Len(), seek.Len())
+		} else {
+			start := f.LoopBodyEntry(seek.List[0])
+			f.Precedes(r, emit, seek, an.OrderOpt{Start: []int{start}, Label: "value emitted ≺ jump over its remaining rows (per row)"})
+		}
+	}
+
+	// R8: DROP SERIES records the ids it found through a shard's index with THAT shard (the
+	// delete set is chosen from the shard's retention policy), for every shard of the partition.
+	const H = "app/ts-store/transport/handler"
+	r8 := c.Rule("C13.R8", "K-LOOPSELECT+K-ARGROLE", H+":(*DropSeries).Process — every shard of the partition is searched and its ids are recorded with that shard")
+	if f := fn(r8, H+":DropSeries.Process"); f != nil {
+		st := f.Find(call(r8, H+":storeTsids"))
+		if !r8.Failed() {
+			if st.Len() == 0 {
+				r8.Fail(f.Name+": no recording", c.P.Pos(f.Body.Pos()), "storeTsids is no longer called")
+			}
+			for _, s := range st.List {
+				ce := s.Node.(*ast.CallExpr)
+				lp, _ := loopOf(f, ce).(*ast.RangeStmt)
+				if lp == nil || !strings.HasSuffix(types.ExprString(lp.X), ".Shards()") {
+					r8.Fail(f.Name+": recording outside the shard loop", c.P.Pos(ce.Pos()), "storeTsids is not called inside the loop over the partition's shards: ids found in the indexes of several retention policies are recorded with one shard, i.e. in one policy's delete set, and stay visible in the others")
+					continue
+				}
+				vid, _ := lp.Value.(*ast.Ident)
+				if vid == nil || len(ce.Args) != 4 || types.ExprString(ce.Args[3]) != vid.Name {
+					r8.Fail(f.Name+": recording with another shard", c.P.Pos(ce.Pos()), "storeTsids is handed %s, not the shard whose index was searched", types.ExprString(ce.Args[len(ce.Args)-1]))
+				}
+			}
+			if st.Len() > 0 {
+				f.LoopVisitsAllOrFails(r8, st, "every shard's ids are recorded (or the drop fails)")
+			}
+		}
+	}
 }
